@@ -21,7 +21,7 @@ pub enum Act {
     Quiet(i64), // bits
 }
 
-pub const ALPHABET: [Act; 14] = [
+pub const ALPHABET: [Act; 16] = [
     Act::Tok(P, TS),
     Act::Tok(X, TS),
     Act::Tok(Y, TS),
@@ -29,6 +29,9 @@ pub const ALPHABET: [Act; 14] = [
     Act::Tok(X, P),
     Act::Tok(200, TS),
     Act::Tok(TS, P),
+    // 126 is not a station address (0..=125): a token telegram carrying it is noise
+    Act::Tok(126, TS),
+    Act::Tok(126, P),
     Act::StatReq(P),
     Act::StatReq(X),
     Act::StatResp(X),
@@ -167,6 +170,11 @@ pub fn run_sequence(start: u64, acts: &[Act], tally: &mut Tally) -> CaseResult {
                 let justified = *sa == ps || offered.contains(sa);
                 let collision = *sa == TS;
                 if !initiated.is_empty() {
+                    // independent of what the station itself registered as predecessor: an address
+                    // above 125 is no station, a first offer carrying it is never to be used
+                    if *sa > 125 && !offered.contains(sa) {
+                        fail!("invalid-address-accepted", "first token offer from the invalid address #{sa} used (registered predecessor #{ps}): {}", ctx());
+                    }
                     if !justified || collision {
                         fail!("token-accepted-without-right", "token from #{sa} used although it is neither the registered predecessor (#{ps}) nor a second offer: {}", ctx());
                     }
@@ -366,8 +374,8 @@ fn supervision3_case(missed: usize, obs: &mut Obs) -> CaseResult {
 pub fn seq_from_index(mut code: u64, depth: u32) -> Vec<Act> {
     let mut v = vec![];
     for _ in 0..depth {
-        v.push(ALPHABET[(code % 14) as usize]);
-        code /= 14;
+        v.push(ALPHABET[(code % ALPHABET.len() as u64) as usize]);
+        code /= ALPHABET.len() as u64;
     }
     v
 }
@@ -391,7 +399,7 @@ fn exhaustive(i: u64, depth: u32, obs: &mut Obs) -> CaseResult {
 pub fn property() -> Property {
     Property {
         id: "C11",
-        rule: "cases: one real station TS=5 (HSA 8, two-station ring with partner 6) against a scripted environment; ALL sequences of depth 3 (quick) / 4-5 (thorough) over a 14-symbol alphabet (tokens P->TS, X->TS, Y->TS, P->X, X->P, 200->TS, TS->P; status request from P / X; status reply; SC; silence of Tslot/2, 1.5 Tslot, token-lost time-out) from two start states (listening; in-ring idle), random sequences up to length 40, and the supervision scenarios (successor silent / heard after the 1st, 2nd, 3rd pass, three kinds of heard telegram and three kinds of undecodable activity - noise, bad checksum, bad length repetition -, eight delays). History invariants with PS/NS read from inspect_token_ring() immediately before each offer: token from the registered predecessor is accepted, a first offer by a stranger is not, an immediately repeated offer is; a listening station never uses a token and initiates only its claim; nothing is initiated without the token; status requests to TS are answered exactly once; after the own pass: silence => identical token again after > Tslot, three in total, then the successor leaves the LAS and the token goes to the next station; heard => no repetition, successor kept. Non-trivial = sequence contains a token offer to TS or starts in the ring; distinct by sequence.",
+        rule: "cases: one real station TS=5 (HSA 8, two-station ring with partner 6) against a scripted environment; ALL sequences of depth 3 (quick) / 4-5 (thorough) over a 16-symbol alphabet (tokens P->TS, X->TS, Y->TS, P->X, X->P, 200->TS, TS->P, 126->TS, 126->P; status request from P / X; status reply; SC; silence of Tslot/2, 1.5 Tslot, token-lost time-out) from two start states (listening; in-ring idle), random sequences up to length 40, and the supervision scenarios (successor silent / heard after the 1st, 2nd, 3rd pass, three kinds of heard telegram and three kinds of undecodable activity - noise, bad checksum, bad length repetition -, eight delays). History invariants with PS/NS read from inspect_token_ring() immediately before each offer: token from the registered predecessor is accepted, a first offer by a stranger is not, an immediately repeated offer is; a listening station never uses a token and initiates only its claim; nothing is initiated without the token; status requests to TS are answered exactly once; after the own pass: silence => identical token again after > Tslot, three in total, then the successor leaves the LAS and the token goes to the next station; heard => no repetition, successor kept. Non-trivial = sequence contains a token offer to TS or starts in the ring; distinct by sequence.",
         assumptions: vec![
             "formulated over observable ownership episodes (DESIGN 6, C11 i-v): an offer arriving while TS supervises its own pass counts as a first offer; the remembered stranger is forgotten when TS acted as owner; only one stranger is remembered; a station that saw its own address twice is Offline and has no obligations; 'heard' = a complete valid telegram polled before the slot expires",
             "the environment transmits only after 40 bit times of idle bus and the station is polled every 5 us",
@@ -403,7 +411,7 @@ pub fn property() -> Property {
             SubCheck::tape("random", "random sequences up to length 40", |t, obs| {
                 let start = t.below(2);
                 let n = 1 + t.below(40) as usize;
-                let acts: Vec<Act> = (0..n).map(|_| ALPHABET[t.below(14) as usize]).collect();
+                let acts: Vec<Act> = (0..n).map(|_| ALPHABET[t.below(ALPHABET.len() as u64) as usize]).collect();
                 let mut tally = Tally { accepted: 0, declined: 0 };
                 let r = run_sequence(start, &acts, &mut tally);
                 obs.count("accepted_offers", tally.accepted);
@@ -431,13 +439,13 @@ pub fn property() -> Property {
             Tier::Quick => vec![
                 Step::Enumerate { kind: "supervision", count: 384 },
                 Step::Enumerate { kind: "supervision3", count: 4 },
-                Step::Enumerate { kind: "seq4", count: 2 * 14u64.pow(4) },
+                Step::Enumerate { kind: "seq4", count: 2 * 16u64.pow(4) },
                 Step::Pbt { kind: "random", cases: 20_000, max_len: 48 },
             ],
             Tier::Thorough => vec![
                 Step::Enumerate { kind: "supervision", count: 384 },
                 Step::Enumerate { kind: "supervision3", count: 4 },
-                Step::Enumerate { kind: "seq5", count: 2 * 14u64.pow(5) },
+                Step::Enumerate { kind: "seq5", count: 2 * 16u64.pow(5) },
                 Step::Pbt { kind: "random", cases: 60_000, max_len: 48 },
             ],
         },
